@@ -26,7 +26,7 @@ def gen_cases(ck):
     for i in range(n):
         mob = bool(ck.rng.integers(4) != 0)
         kr = [(1, 16), (2, 6), (1, 3)][int(ck.rng.integers(3))] if mob else [(0, 16), (0, 0), (0, 3)][int(ck.rng.integers(3))]
-        cases.append({"type": "tissue", "seed": int(ck.rng.integers(1 << 30)), "tissue": ["random", "jitter", "hex"][int(ck.rng.integers(3))],
+        cases.append({"type": "tissue", "seed": int(ck.rng.integers(1 << 30)), "tissue": ["random", "jitter", "hex", "quad"][int(ck.rng.integers(4))],
                       "sites": int(ck.rng.integers(24, 56)), "subset": [None, None, None, 0.8][int(ck.rng.integers(3))], "min_ridge": 0.004,
                       "mobius": mob, "strength": float(ck.rng.uniform(0.3, 2.5)), "kmin": kr[0], "kmax": kr[1],
                       "param_mode": ["uniform", "random"][int(ck.rng.integers(2))], "angle": float(ck.rng.uniform(0, 2 * math.pi)),
@@ -56,29 +56,40 @@ def run_case(ck, case, reqs, pending):
     n = A.shape[1]
     # ---------------- the ground truth is in balance (numerical re-evaluation of maxwell_balance / conformal_balance)
     tau = np.array([ph.truth[rg] for rg in ph.ridges])
-    Atrue = np.zeros_like(A)
-    for (j, rg), (cx, cy) in ph.coefs.items():
-        col = ph.ridges.index(rg)
-        r = ph.rowmap[sc.bm.vid_of_junction[j]]
-        ids = ph.used[col]
-        a, b = tuple(rg)
-        other = b if a == j else a
-        t = statics.true_direction(sc, j, other, len(ids))
-        Atrue[r, col], Atrue[r + 1, col] = t.real, t.imag
-    imbalance = float(np.max(np.abs(Atrue @ tau))) if A.size else 0.0
+    # the force-balance system of the ground truth, built from the topology alone: two rows for every junction where at least
+    # three of the inferred interfaces end (four-fold junctions included: the documented default keeps them), closed-form tangents
+    juncs = sorted({j for rg in ph.ridges for j in rg})
+    rows_of = {}
+    for j in juncs:
+        inc = [col for col, rg in enumerate(ph.ridges) if j in rg]
+        if len(inc) >= 3:
+            rows_of[j] = (2 * len(rows_of), inc)
+    Atrue = np.zeros((2 * len(rows_of), n))
+    for j, (r, inc) in rows_of.items():
+        for col in inc:
+            a, b = tuple(ph.ridges[col])
+            other = b if a == j else a
+            t = statics.true_direction(sc, j, other, len(ph.used[col]))
+            Atrue[r, col], Atrue[r + 1, col] = t.real, t.imag
+    imbalance = float(np.max(np.abs(Atrue @ tau))) if Atrue.size else 0.0
     if imbalance > 1e-9 * (1 + float(np.max(np.abs(tau)))):
         ck.disagree("generator: ground truth not in force balance", f"max |A_true tau| = {imbalance}", case)
         return
     # ---------------- S
-    if not ph.wellposed:
+    Mtrue = np.block([[Atrue, np.ones((Atrue.shape[0], 1))], [np.ones((1, n)), np.zeros((1, 1))]])
+    svt = np.linalg.svd(Mtrue, compute_uv=False)
+    determined = Mtrue.shape[0] >= Mtrue.shape[1] and svt[-1] >= 1e-3 * svt[0]
+    if not determined:
         ck.count("skipped_not_uniquely_determined")
         ck.case(case, nontrivial=False)
         return ph
+    if len(rows_of) != len(ph.rowmap):
+        ck.count("cases_where_the_code_has_other_equations_than_the_ground_truth")
     x = np.array([ph.tension[rg] for rg in ph.ridges])
     err = float(np.max(np.abs(x - tau)))
     coef_tol = physical.coef_tolerance(sc, ph, fit)
     solver_tol = {None: 1e-8, "lsq": 1e-4, "lsq_linear": 1e-5}[method]
-    smin = ph.sigma[0]
+    smin = float(svt[-1])
     tol = (2 * coef_tol * math.sqrt(n) * float(np.max(tau)) + solver_tol) / smin
     ck.dist["worst_error_over_tolerance"] = max(ck.dist.get("worst_error_over_tolerance", 0.0), (err / tol) if not ph.d2 else 0.0)
     if err > tol:
